@@ -1139,7 +1139,7 @@ def compare(ctx, cases, impl, index, model):
 
 
 def run(ctx):
-    n = int(os.environ.get("VERIF_C16_N", 160 if ctx.quick else 6000))
+    n = int(os.environ.get("VERIF_C16_N", 128 if ctx.quick else 6000))
     ctx.coverage["rule"] = (
         "one case = a generated (old, new) pair of module versions (plain / closure-made / decorated / aliased "
         "functions with defaults, docs and attributes; classes with methods, static and class methods, properties, "
